@@ -156,6 +156,8 @@ class Scenario:
     max_decisions = 400
     timeout_ms = 30000
     validate = True
+    margin = MARGIN  # a difference that is always below margin*(1+|oracle|) is a rounding matter, not a violation
+    concrete_tol = CONCRETE_TOL  # tolerance of the float replay
 
     def run(self, ctx):
         raise NotImplementedError
@@ -261,7 +263,7 @@ def run_concrete(sc, values, choices):
     return ctx, err
 
 
-def concrete_ob_failed(ob):
+def concrete_ob_failed(ob, tol=CONCRETE_TOL):
     if ob.kind == "true":
         c = ob.cond
         if isinstance(c, SymBool):
@@ -269,7 +271,7 @@ def concrete_ob_failed(ob):
         if isinstance(c, z3.ExprRef):
             return not z3.is_true(z3.simplify(c))
         return not bool(c)
-    return not close(ob.impl, ob.oracle)
+    return not close(ob.impl, ob.oracle, tol)
 
 
 def witness_of(model, inputs):
@@ -400,7 +402,7 @@ def run_scenario(sc, do_validate=True):
                 diff = it - ot
                 absd = z3.If(diff >= 0, diff, -diff)
                 abso = z3.If(ot >= 0, ot, -ot)
-                mq = z3.RealVal(f"{MARGIN.numerator}/{MARGIN.denominator}")
+                mq = z3.RealVal(f"{Fraction(sc.margin).numerator}/{Fraction(sc.margin).denominator}")
                 r2, model2 = eng.check_valid(path, z3.Not(absd > mq * (1 + abso)))
                 if r2 == "unsat":
                     res["within_margin"] += 1
@@ -428,7 +430,7 @@ def run_scenario(sc, do_validate=True):
             confirmed = False
             cimpl = coracle = None
             for cob in cctx.obs:
-                if cob.label == ob.label and concrete_ob_failed(cob):
+                if cob.label == ob.label and concrete_ob_failed(cob, sc.concrete_tol):
                     confirmed = True
                     cimpl, coracle = cob.impl, cob.oracle
                     break
@@ -728,7 +730,7 @@ def replay_file(mod, path):
         print(f"scenario {v['scenario']} not found")
         return 2
     cctx, err = run_concrete(sc, v["witness"], [tuple(c) for c in v.get("choices", [])])
-    failed = [ob for ob in cctx.obs if ob.label == v["label"] and concrete_ob_failed(ob)]
+    failed = [ob for ob in cctx.obs if ob.label == v["label"] and concrete_ob_failed(ob, sc.concrete_tol)]
     print(f"scenario={sc.key} witness={v['witness']} error={err}")
     for ob in failed:
         print(f"REPRODUCED {ob.label}: impl={ob.impl!r} oracle={ob.oracle!r} info={ob.info}")
